@@ -55,6 +55,7 @@ class Unsat:
     formula: object
     fkey: str = None
     detail: str = ''
+    free: bool = False      # True: decide the formula WITHOUT the recorded side conditions / path
 
 
 @dataclass
@@ -374,7 +375,8 @@ def _decide(mod, desc, opts, res, rlimit, V, ctx, claims, exc):
     # -- Unsat obligations (exists-queries)
     for u in unsats:
         s = z3.Solver(); s.set('rlimit', rlimit)
-        s.add(*base)
+        if not u.free:
+            s.add(*base)
         s.add(u.formula)
         r = _check(s, res)
         if r == z3.unknown:
